@@ -415,6 +415,14 @@ func runCheck(prop, tier string, seed int) int {
 			stillFails[kf] = true
 			continue
 		}
+		if isClauseCover(g.ID) {
+			// the antecedent of this clause is unreachable: the clause holds vacuously on this tree. Not a
+			// violation of the property; reported so that a contradiction among assumed contracts is noticed
+			// (the reference ledger is only written when no clause is vacuous).
+			undecided = append(undecided, "vacuous:"+g.ID)
+			fmt.Printf("WARNING property=%s clause holds vacuously (antecedent unreachable): %s\n", prop, g.ID)
+			continue
+		}
 		if !inLedger[g.ID] && len(ledger[prop]) > 0 {
 			undecided = append(undecided, g.ID)
 			continue
@@ -516,13 +524,17 @@ func runCheck(prop, tier string, seed int) int {
 		}
 		return 3
 	}
-	d := 0
+	d, n := 0, 0
 	for _, g := range groups {
+		if g.Cover {
+			continue
+		}
+		n++
 		if len(g.Failed) == 0 {
 			d++
 		}
 	}
-	fmt.Printf("OK property=%s tier=%s obligations=%d discharged=%d undecided=%d wall=%.1fs\n", prop, tier, len(groups), d, len(undecided), wall)
+	fmt.Printf("OK property=%s tier=%s obligations=%d discharged=%d undecided=%d wall=%.1fs\n", prop, tier, n, d, len(undecided), wall)
 	return 0
 }
 
@@ -582,7 +594,16 @@ func writeEvidence(prop, tier string, seed int, pc *PropConfig, frs []*FuncResul
 	for _, u := range undecided {
 		undec[u] = true
 	}
+	guards, guardsReach := 0, 0
 	for _, g := range groups {
+		if g.Cover {
+			// vacuity guard (reachability of a return / of a clause's antecedent): not a proof obligation
+			guards++
+			if len(g.Failed) == 0 {
+				guardsReach++
+			}
+			continue
+		}
 		st := "discharged"
 		if len(g.Failed) > 0 {
 			st = "failed"
@@ -596,7 +617,12 @@ func writeEvidence(prop, tier string, seed int, pc *PropConfig, frs []*FuncResul
 		solverSecs += g.Seconds
 		obls = append(obls, oblJSON{g.ID, g.Kind, g.Instances, g.Backends, round3(g.Seconds), st})
 	}
-	claimed := len(groups) - len(undecided)
+	claimed := len(obls)
+	for _, u := range undecided {
+		if !strings.HasPrefix(u, "vacuous:") {
+			claimed--
+		}
+	}
 	used := map[string]bool{}
 	abstr := map[string]bool{}
 	var funcs []string
@@ -640,6 +666,7 @@ func writeEvidence(prop, tier string, seed int, pc *PropConfig, frs []*FuncResul
 		"functions_under_contract": funcs,
 		"obligation_list":          obls,
 		"undecided":                undecided,
+		"vacuity_guards":           map[string]int{"posed": guards, "not_refuted": guardsReach},
 		"abstracted_constructs":    sortedKeys(abstr),
 		"solver_seconds_total":     round3(solverSecs),
 		"engine_errors":            engineErrs,
@@ -686,6 +713,12 @@ func truncAll(ss []string, n int) []string {
 }
 
 // cmdLedger regenerates baseline_ledger.json from a run in which every obligation is discharged.
+// isClauseCover: the reachability guard of one ensures clause (cover:<label>), as opposed to cover:return
+func isClauseCover(id string) bool {
+	i := strings.LastIndex(id, "/cover:")
+	return i >= 0 && id[i+7:] != "return"
+}
+
 func cmdLedger(args []string) {
 	var props map[string]*PropConfig
 	if err := loadJSON(filepath.Join(verifDir, "props.json"), &props); err != nil {
@@ -732,6 +765,13 @@ func cmdLedger(args []string) {
 			}
 		}
 		for _, g := range groupObligations(frs) {
+			if isClauseCover(g.ID) {
+				if len(g.Failed) > 0 {
+					fmt.Printf("%s: VACUOUS clause on the reference tree: %s\n", id, g.ID)
+					bad++
+				}
+				continue
+			}
 			if len(g.Failed) == 0 {
 				okIDs = append(okIDs, g.ID)
 			} else {
